@@ -88,7 +88,7 @@ impl Prop for C08 {
             if output != input && oracle::line_count(&output) >= 3 {
                 out.nontrivial.push(rng::hash_combine(rng::hash_str(&input), rng::hash_str(&cfg.short())));
             }
-            if k == 0 && idx < 2 {
+            if out.sample.is_none() && idx < 32 {
                 out.sample = Some(json!({"generator": kind, "config": cfg.short(), "input": short(&input, 200), "output": short(&output, 200), "whitespace issues": n}));
             }
         }
